@@ -123,9 +123,22 @@ def run_job(job, worker):
         shutil.rmtree(d, ignore_errors=True)
 
 
+def worker_lock(worker):
+    """Exclusive use of worker slot `worker` (its target dir, scratch dir and cargo home) across concurrently running checks."""
+    import fcntl
+    os.makedirs(GEN, exist_ok=True)
+    f = open(os.path.join(GEN, "w%d.lock" % worker), "w")
+    fcntl.flock(f, fcntl.LOCK_EX)
+    return f
+
+
 def _worker(args):
     worker, jobs = args
-    return [run_job(j, worker) for j in jobs]
+    lock = worker_lock(worker)
+    try:
+        return [run_job(j, worker) for j in jobs]
+    finally:
+        lock.close()
 
 
 def run_jobs(jobs, nproc=NCPU):
